@@ -23,7 +23,7 @@ import (
 func init() {
 	ev.Register(&ev.Spec{
 		ID: "C19", Level: "exploration",
-		Rule:    "paged listings (next Offset = Offset of the last entry received) of real localfs temp directories, staticfs and composefs (flat, with localfs/staticfs mounts, nested WithDir), called on the File directly (entry counts) and through client+server (byte counts, several msize values; the listing fid has one of nine histories behind it: fresh, listed before, restarted after one page, page counts varying, a second fid listing the same directory in alternation, and for localfs the directory or its ancestor renamed before or in the middle of the listing); the multiset of names is compared with ground truth and every entry's QID/type with Walk+GetAttr. Also: a directory below a fresh composefs mount listed for the first time by 4 connections at once (the mount's QID mapper sees every file for the first time). Non-trivial: the listing needed >= 2 pages; distinct by (fs, dir size, name class, count class, route).",
+		Rule:    "paged listings (next Offset = Offset of the last entry received) of real localfs temp directories, staticfs and composefs (flat, with localfs/staticfs mounts, nested WithDir, and a staticfs directory mounted in a composefs and listed through the mount), called on the File directly (entry counts) and through client+server (byte counts, several msize values; the listing fid has one of nine histories behind it: fresh, listed before, restarted after one page, page counts varying, a second fid listing the same directory in alternation, and for localfs the directory or its ancestor renamed before or in the middle of the listing); the multiset of names is compared with ground truth and every entry's QID/type with Walk+GetAttr. Also: a directory below a fresh composefs mount listed for the first time by 4 connections at once (the mount's QID mapper sees every file for the first time). Non-trivial: the listing needed >= 2 pages; distinct by (fs, dir size, name class, count class, route).",
 		Assume:  []string{"directory contents are not modified while listed (the directory itself or an ancestor may be renamed)", "real temp directories under /verif/.scratch"},
 		Shards:  shards(8, 16),
 		Timeout: timeout(5*time.Minute, 40*time.Minute),
@@ -96,6 +96,25 @@ func c19Static(n, nl int) (*c19fs, error) {
 		return nil, err
 	}
 	return &c19fs{kind: "staticfs", names: names, att: a, clean: func() {}}, nil
+}
+
+// c19StaticMount: a staticfs of n files mounted in a composefs (its listing goes
+// through the mount's QID-translating wrapper); the mounted directory is listed.
+func c19StaticMount(n, nl int) (*c19fs, error) {
+	names := c19Names(n, nl)
+	var opts []staticfs.Option
+	for _, nm := range names {
+		opts = append(opts, staticfs.WithFile(nm, "content of "+nm[:minI(len(nm), 8)]))
+	}
+	st, err := staticfs.New(opts...)
+	if err != nil {
+		return nil, err
+	}
+	fs, err := composefs.New(composefs.WithMount("m", st), composefs.WithFile("sibling", staticfs.ReadOnlyFile("s")))
+	if err != nil {
+		return nil, err
+	}
+	return &c19fs{kind: "composefs-static-mount", names: names, att: fs, path: []string{"m"}, clean: func() {}}, nil
 }
 
 func c19Compose(c *ev.Ctx, n, nl int, nested bool) (*c19fs, error) {
@@ -257,7 +276,7 @@ func runC19(c *ev.Ctx) {
 			if n > 1000 && nl == 255 {
 				continue
 			}
-			for _, kind := range []string{"localfs", "staticfs", "composefs", "composefs-nested"} {
+			for _, kind := range []string{"localfs", "staticfs", "composefs", "composefs-nested", "composefs-static-mount"} {
 				idx++
 				if !c.Mine(idx) {
 					continue
@@ -274,6 +293,8 @@ func runC19(c *ev.Ctx) {
 					f, err = c19Static(n, nl)
 				case "composefs":
 					f, err = c19Compose(c, n, nl, false)
+				case "composefs-static-mount":
+					f, err = c19StaticMount(n, nl)
 				default:
 					f, err = c19Compose(c, n, nl, true)
 				}
